@@ -1170,11 +1170,102 @@ fn setup_worker_env(sb: &Sandbox) {
     std::env::set_var("XDG_CONFIG_DIRS", format!("{}/cfgsys", sb.base));
 }
 
+// ---------------------------------------------------------------------------------------------
+// Builders across a cwd change: copy_b / chmod_b / chown_b hand out a builder that is executed later.
+// The wrapper's builder must behave like the backend's in that respect too: built from relative
+// paths, the cwd moved, then exec() - same results, same effect.
+// ---------------------------------------------------------------------------------------------
+fn deferred_transcript<V: VirtualFileSystem>(fs: &V, base: &str, chdir: &dyn Fn(&V, &str) -> Result<(), String>) -> Vec<String> {
+    let mut t = vec![];
+    let r = catch_unwind(AssertUnwindSafe(|| -> Result<Vec<String>, String> {
+        let e = |x: RvError| x.to_string();
+        let (a, b) = (format!("{}/a", base), format!("{}/b", base));
+        fs.mkdir_p(&a).map_err(e)?;
+        fs.mkdir_p(&b).map_err(e)?;
+        fs.write_all(format!("{}/f", a), b"1").map_err(e)?;
+        fs.write_all(format!("{}/f", b), b"2").map_err(e)?;
+        chdir(fs, &a)?;
+        let cp = fs.copy_b("f", "g");
+        let cm = fs.chmod_b("f");
+        let co = fs.chown_b("f");
+        chdir(fs, &b)?;
+        let mut v = vec![];
+        v.push(format!("copy_b: {:?}", cp.and_then(|x| x.exec()).map_err(|x| err_kind(&x))));
+        v.push(format!("chmod_b: {:?}", cm.and_then(|x| x.all(0o600).exec()).map_err(|x| err_kind(&x))));
+        v.push(format!("chown_b: {:?}", co.and_then(|x| x.owner(5, 7).exec()).map_err(|x| err_kind(&x))));
+        for d in [&a, &b] {
+            for n in ["f", "g"] {
+                let p = format!("{}/{}", d, n);
+                let rel = p[base.len()..].to_string();
+                v.push(format!("{} exists={} mode={:?} owner={:?} data={:?}", rel, fs.exists(&p), fs.mode(&p).ok().map(|m| format!("{:o}", m)), fs.owner(&p).ok(), fs.read_all(&p).ok()));
+            }
+        }
+        Ok(v)
+    }));
+    match r {
+        Ok(Ok(v)) => t.extend(v),
+        Ok(Err(e)) => t.push(format!("setup/call failed: {}", e)),
+        Err(p) => t.push(format!("PANIC: {}", panic_message(&p))),
+    }
+    t
+}
+
+fn deferred_memfs() -> Vec<(String, String)> {
+    let mut out = vec![];
+    let run = |form: &str| -> Vec<String> {
+        let m = Memfs::new();
+        match form {
+            "Memfs" => deferred_transcript(&m, "/r", &|f: &Memfs, p| f.set_cwd(p).map(|_| ()).map_err(|e| e.to_string())),
+            "Vfs::Memfs" => deferred_transcript(&Vfs::Memfs(m), "/r", &|f: &Vfs, p| f.set_cwd(p).map(|_| ()).map_err(|e| e.to_string())),
+            _ => deferred_transcript(&m.upcast(), "/r", &|f: &Vfs, p| f.set_cwd(p).map(|_| ()).map_err(|e| e.to_string())),
+        }
+    };
+    let direct = run("Memfs");
+    for form in ["Vfs::Memfs", "Memfs::upcast()"] {
+        let got = run(form);
+        if got != direct {
+            let d = direct.iter().zip(got.iter()).find(|(a, b)| a != b).map(|(a, b)| format!("direct: {} / wrapped: {}", a, b)).unwrap_or_else(|| format!("{} vs {} lines", direct.len(), got.len()));
+            out.push((format!("{} builder executed after a cwd change · differs from the direct Memfs call", form), format!("builders made from relative paths with cwd /r/a, executed with cwd /r/b: {}", d)));
+        }
+    }
+    out
+}
+
+fn deferred_stdfs(sb: &Sandbox) -> Vec<(String, String)> {
+    let mut out = vec![];
+    let run = |form: &str| -> Vec<String> {
+        sb.reset();
+        let base = format!("{}/r", sb.root);
+        let t = match form {
+            "Stdfs" => deferred_transcript(&Stdfs::new(), &base, &|_f: &Stdfs, p| std::env::set_current_dir(p).map_err(|e| e.to_string())),
+            "Vfs::Stdfs" => deferred_transcript(&Vfs::Stdfs(Stdfs::new()), &base, &|_f: &Vfs, p| std::env::set_current_dir(p).map_err(|e| e.to_string())),
+            _ => deferred_transcript(&Stdfs::new().upcast(), &base, &|_f: &Vfs, p| std::env::set_current_dir(p).map_err(|e| e.to_string())),
+        };
+        let _ = std::env::set_current_dir(&sb.base);
+        t
+    };
+    let direct = run("Stdfs");
+    for form in ["Vfs::Stdfs", "Stdfs::upcast()"] {
+        let got = run(form);
+        if got != direct {
+            let d = direct.iter().zip(got.iter()).find(|(a, b)| a != b).map(|(a, b)| format!("direct: {} / wrapped: {}", a, b)).unwrap_or_else(|| format!("{} vs {} lines", direct.len(), got.len()));
+            out.push((format!("{} builder executed after a cwd change · differs from Stdfs::new() (trait impl)", form), format!("builders made from relative paths with cwd <SB>/r/a, executed with cwd <SB>/r/b: {}", d)));
+        }
+    }
+    sb.reset();
+    out
+}
+
 pub fn worker(w: &mut WorkerCtx) {
     let max_entries: usize = w.arg(0).parse().unwrap_or(2);
     let sb = Sandbox::new("c13");
     setup_worker_env(&sb);
     spawn_hang_guard(w.tier.pick(20, 60));
+    if w.shard == 0 {
+        for (sig, detail) in deferred_stdfs(&sb) {
+            w.vio(&sig, || detail, || J::obj([("world", J::s("stdfs")), ("what", J::s("deferred-builders"))]));
+        }
+    }
     let trees = enum_trees(&tree_space(max_entries));
     let mut st = DStats::default();
     let mut ntrees = 0u64;
@@ -1226,6 +1317,9 @@ pub fn run(ctx: &Ctx) -> i32 {
     HANG_REPORT.set_prop(&ctx.prop);
     if let Some(p) = &ctx.replay {
         return replay(ctx, p);
+    }
+    for (sig, detail) in deferred_memfs() {
+        vio(&sig, || detail, || J::obj([("world", J::s("memfs")), ("what", J::s("deferred-builders"))]));
     }
     let mut per_cfg = vec![];
     let (mut states, mut trans) = (0u64, 0u64);
@@ -1370,6 +1464,23 @@ pub fn run(ctx: &Ctx) -> i32 {
 fn replay(ctx: &Ctx, p: &std::path::Path) -> i32 {
     let j = json::parse(&std::fs::read_to_string(p).expect("read replay")).expect("parse replay");
     let case = j.get("case").expect("case");
+    if case.get("what").and_then(|x| x.as_str()) == Some("deferred-builders") {
+        let mut f = deferred_memfs();
+        if unsafe { libc::geteuid() } == 0 {
+            let sb = Sandbox::new("c13r.deferred");
+            f.extend(deferred_stdfs(&sb));
+            let _ = std::env::set_current_dir("/");
+        }
+        for (sig, detail) in &f {
+            println!("  {}: {}", sig, detail);
+        }
+        if f.is_empty() {
+            println!("holds on this case");
+            return 0;
+        }
+        println!("VIOLATION property={} replay={}", ctx.prop, p.display());
+        return 1;
+    }
     let mut found: Vec<Finding> = vec![];
     if case.get("world").and_then(|x| x.as_str()) == Some("stdfs") {
         let me = case.get("max_entries").and_then(|x| x.as_i64()).unwrap_or(2) as usize;
